@@ -13,14 +13,20 @@
    user's call-backs (translated on every run by tools/gen_minim.py); C18_generated_drivers_are_safe re-checks that no
    arithmetic update is left without its clamp, and C18_call_back_states_feasible_* conclude, for ANY control flow, that
    all five algorithms call the user only inside the box.
-   _partial: (1) for conjugate gradient, L-BFGS and the line search only the feasibility clause is a theorem (over the
-   generated atoms, with the assumption SInvokeFree of MinimFlow.v for the line search entered without bounds); their
-   other clauses are checked on every run of the harness, not proved.  (2) "the call
+   Third model, tie H: MinimCG.v, the line search (bracketing, cubic refinement, Wolfe test, error paths) and the
+   conjugate-gradient drivers written statement by statement; ./check C18 compares it with the implementation like the
+   Levenberg model.  C18_line_search_partial and C18_conjugate_gradient_partial prove feasibility, reported cost and the
+   iteration bound for it.
+   _partial: (1) for L-BFGS only the feasibility clause is a theorem (over the generated atoms); for conjugate gradient
+   'SUCCESS is sound' and 'does not exceed the starting cost' need arithmetic the abstract scalar type does not have
+   (Armijo condition; a zero direction component leaves a variable where it is) and are checked on every run of the
+   harness, as are all clauses for L-BFGS; both feasibility theorems carry the assumption SInvokeFree / its analogue for
+   the line search entered without bounds.  (2) "the call
    terminates": C18_outer_loop_terminates_partial bounds the outer loop; the inner loop ends when the damping, doubled
    from its restart value, passes its maximum, which is arithmetic the abstract scalar type does not have; the
    harness observes termination under an alarm. *)
 From Coq Require Import ZArith List Bool.
-From Adept Require Import Scalar Minim MinimProofs MinimReal ExprReal MinimFlow MinimFlowProofs.
+From Adept Require Import Scalar Minim MinimProofs MinimReal ExprReal MinimFlow MinimFlowProofs MinimCG MinimCGProofs.
 From AdeptGen Require Import Gen_Minim.
 Import ListNotations.
 Local Open Scope Z_scope.
@@ -124,6 +130,47 @@ Print Assumptions C18_generated_drivers_are_safe.
 Print Assumptions C18_call_back_states_feasible_cg_partial.
 Print Assumptions C18_call_back_states_feasible_lbfgs_partial.
 Print Assumptions C18_call_back_states_feasible_lm_partial.
+
+(* ---- third model (hand-written, tie H): the line search and the bounded conjugate-gradient driver, MinimCG.v ---- *)
+Section ConjugateGradient.
+Context {T : Type} (O : Ops T).
+Variable cost : list T -> T.
+Variable grad : list T -> list T.
+Variable norm2 : list T -> T.
+Variable osqrt : T -> T.
+Variable isfinite : T -> bool.
+Hypothesis le_total : forall a b, oleb O a b = true \/ oleb O b a = true.
+Hypothesis lt_le : forall a b, oltb O a b = negb (oleb O b a).
+(* the line search, for any predicate [good] that holds of the start and of every point x + (ss*ds)*direction (clamped when
+   bounds are given): only good states are evaluated, the state left in x is good, and the cost left in cost_function_ is
+   the user's cost at that state - through the bracketing and the cubic refinement, the error paths and the iteration limit *)
+Theorem C18_line_search_partial : forall s k bnd x dir step0 curv bound_step cost_fn0 (good : list T -> Prop),
+  good x -> (forall ds ss, good (point O bnd x dir ds ss)) -> cost_fn0 = cost x ->
+  forall gradient utd samples log, Forall good log ->
+  post cost good (line_search O cost grad norm2 osqrt isfinite s k bnd x dir step0 curv bound_step cost_fn0 gradient utd samples log).
+Proof. exact (line_search_spec O cost grad norm2 osqrt isfinite le_total lt_le). Qed.
+(* bounded conjugate gradient (Polak-Ribiere and Fletcher-Reeves): every call-back state and the returned state are in the
+   box, the reported cost is the cost at the returned state, the iteration count respects the maximum.  The hypothesis is
+   the assumption already made in MinimFlow.v: a line search entered without bounds, which the driver does only when no
+   component of the direction points to a finite bound, cannot leave the box *)
+Theorem C18_conjugate_gradient_partial : forall lo hi,
+  (forall k ds x dir, inbox O lo hi x -> snd (fst (nearest_bound O k ds x lo hi dir 0 (cbig k, -1, 0))) < 0 ->
+                      forall ds' ss, inbox O lo hi (point O None x dir ds' ss)) ->
+  forall fuel s k fr x m1 inf, valid_bounds O lo hi x = true ->
+  let r := cg_bounded O cost grad norm2 osqrt isfinite fuel s k fr lo hi x m1 inf in
+  Forall (fun e => inbox O lo hi (ev_state e)) (r_log r) /\ inbox O lo hi (r_x r)
+  /\ (r_status r <> MOutOfFuel -> r_cost r = cost (r_x r)) /\ (0 < g_max_it s -> 0 <= r_iter r <= g_max_it s).
+Proof.
+  exact (fun lo hi Hfree fuel s k fr x m1 inf Hv =>
+           cg_bounded_spec O cost grad norm2 osqrt isfinite le_total lt_le lo hi (valid_bounds_box_le O le_total lo hi x Hv) Hfree fuel s k fr x m1 inf Hv).
+Qed.
+Theorem C18_conjugate_gradient_invalid_bounds_partial : forall lo hi fuel s k fr x m1 inf, valid_bounds O lo hi x = false ->
+  let r := cg_bounded O cost grad norm2 osqrt isfinite fuel s k fr lo hi x m1 inf in r_status r = MInvalidBounds /\ r_log r = [] /\ r_x r = x.
+Proof. exact (cg_bounded_invalid O cost grad norm2 osqrt isfinite). Qed.
+End ConjugateGradient.
+Print Assumptions C18_line_search_partial.
+Print Assumptions C18_conjugate_gradient_partial.
+Print Assumptions C18_conjugate_gradient_invalid_bounds_partial.
 
 (* the order hypotheses are met by the real numbers: feasibility for every real cost function *)
 Theorem C18_feasible_over_the_reals_partial : forall cost grad hess solve norm2 isfinite ofnat,
